@@ -69,7 +69,7 @@ MANIFEST = dict(
 )
 
 IMPORTS = ['Coq.NArith.NArith', 'Coq.ZArith.ZArith', 'Coq.Lists.List', 'Coq.Bool.Bool', 'SV.Fmt.DmxCodes', 'SV.Fmt.DmxBin',
-           'SV.Fmt.DmxKv1', 'SV.Gen.DmxCodes_gen']
+           'SV.Fmt.DmxKv1', 'SV.Fmt.DmxScalar', 'SV.Gen.DmxCodes_gen']
 PRE_BIN = '''Import ListNotations. Open Scope N_scope.
 Definition idenc (_ : enc) (s : str) : bytes := s.
 Definition iddec (_ : enc) (b : bytes) : option str := Some b.
@@ -241,6 +241,175 @@ def corr_binary(ck: Ck) -> None:
         ck.tie_broken.append('correspondence binary (Fmt/DmxBin.v vs export_binary/parse_bin)')
         ck.extra['binary_disagreement'] = {'mode': cases[i][0], 'spec': cases[i][1],
                                            'kind': {1: 'model export bytes differ', 2: 'model parse differs'}.get(code, code)}
+
+
+
+# ------------------------------------------------------------------------------------------------ scalar codecs
+IMPORTS_SC = ['Coq.NArith.NArith', 'Coq.ZArith.ZArith', 'Coq.QArith.QArith', 'Coq.Lists.List', 'Coq.Bool.Bool', 'Coq.Strings.String',
+              'SV.Bin.Struct', 'SV.Fmt.DmxCodes', 'SV.Fmt.DmxScalar', 'SV.Gen.DmxCodes_gen']
+PRE_SC = """Import ListNotations. Open Scope N_scope.
+Fixpoint leqb {A} (f : A -> A -> bool) (a b : list A) : bool :=
+  match a, b with [], [] => true | x :: a', y :: b' => f x y && leqb f a' b' | _, _ => false end.
+Definition sval_eqb (a b : sval) : bool := match a, b with
+  | SvInt x, SvInt y => (x =? y)%Z | SvFloat x, SvFloat y => x =? y | SvBool x, SvBool y => Bool.eqb x y
+  | SvTime x, SvTime y => Qeq_bool x y
+  | SvColor r g b a, SvColor r' g' b' a' => ((r =? r') && (g =? g') && (b =? b') && (a =? a'))%Z
+  | SvVec x, SvVec y => leqb N.eqb x y | SvMat x, SvMat y => leqb N.eqb x y | _, _ => false end.
+Definition obytes_eqb (a b : option (list N)) := match a, b with Some x, Some y => leqb N.eqb x y | None, None => true | _, _ => false end.
+Definition osval_eqb (a b : option sval) := match a, b with Some x, Some y => sval_eqb x y | None, None => true | _, _ => false end.
+(* per case: 0 ok, 1 model bytes differ from TYPE_CONVERT[t, BINARY], 2 model value differs from TYPE_CONVERT[BINARY, t] *)
+Definition chks (c : vtype * sval * option (list N) * option sval) : N := let '(t, v, b, back) := c in
+  if obytes_eqb (encode_sval fmul64 gen_scalar t v) b
+  then (match b with
+        | Some bs => if osval_eqb (decode_sval fdiv64 (fun x => x) gen_scalar t bs) back then 0 else 2
+        | None => 0 end)
+  else 1.
+Fixpoint bad_idx {A} (f : A -> N) (n : N) (l : list A) : list N := match l with [] => [] | x :: r => (if f x =? 0 then [] else [n * 10 + f x]) ++ bad_idx f (n + 1) r end.
+"""
+
+
+def _f32_bits(x: float) -> int:
+    return struct.unpack('<I', struct.pack('<f', x))[0]
+
+
+def _f32_val(bits: int) -> float:
+    return struct.unpack('<f', struct.pack('<I', bits))[0]
+
+
+def _coq_q(x: float) -> str:
+    n, d = float(x).as_integer_ratio()
+    return f'(Qmake ({n})%Z {d}%positive)'
+
+
+def _rand_f32(rng, below_360: bool = False) -> int:
+    """A binary32 bit pattern: finite, no NaN (a NaN's payload need not survive float<->double conversion)."""
+    if below_360:
+        return rng.choice([0, 1, 0x43B3FFFF, 0x3F800000, rng.randrange(0, 0x43B40000), _f32_bits(rng.uniform(0, 359.99))])
+    r = rng.random()
+    if r < 0.1:
+        return rng.choice([0, 0x80000000, 1, 0x80000001, 0x7F7FFFFF, 0xFF7FFFFF, 0x7F800000, 0xFF800000, 0x3F800000, 0x00800000])
+    if r < 0.5:
+        return _f32_bits(rng.uniform(-1000, 1000))
+    b = rng.randrange(0, 1 << 32)
+    return b if (b & 0x7F800000) != 0x7F800000 else b & 0x807FFFFF
+
+
+def sval_of_py(typ: str, v) -> str:
+    """A Python value of the given DMX type as a Coq [sval] (floats that came from binary32 as their bit pattern)."""
+    if typ == 'INTEGER':
+        return f'(SvInt ({int(v)})%Z)'
+    if typ == 'FLOAT':
+        return f'(SvFloat {_f32_bits(v)})'
+    if typ == 'BOOL':
+        return f'(SvBool {"true" if v else "false"})'
+    if typ == 'TIME':
+        return f'(SvTime {_coq_q(v.value)})'
+    if typ == 'COLOR':
+        return f'(SvColor ({v.r})%Z ({v.g})%Z ({v.b})%Z ({v.a})%Z)'
+    if typ == 'MATRIX':
+        return '(SvMat [' + ';'.join(str(_f32_bits(v[i, j])) for i in range(3) for j in range(3)) + '])'
+    comps = [v.pitch, v.yaw, v.roll] if typ == 'ANGLE' else ([v.x, v.y, v.z] if typ == 'VEC3' else list(v))
+    return '(SvVec [' + ';'.join(str(_f32_bits(c)) for c in comps) + '])'
+
+
+def gen_scalar_value(rng, typ: str):
+    """(python value, exact?) — exact means representable in the wire type."""
+    from srctools import dmx
+    from srctools.math import FrozenAngle, FrozenVec, Matrix
+    if typ == 'INTEGER':
+        return rng.choice([0, 1, -1, 2 ** 31 - 1, -2 ** 31, 2 ** 31, -2 ** 31 - 1, rng.randrange(-2 ** 31, 2 ** 31), rng.randrange(-70000, 70000)])
+    if typ == 'FLOAT':
+        return _f32_val(_rand_f32(rng))
+    if typ == 'BOOL':
+        return rng.random() < 0.5
+    if typ == 'TIME':
+        r = rng.random()
+        if r < 0.6:       # tick-exact, incl. the int32 bounds
+            k = rng.choice([rng.randrange(-2 ** 31, 2 ** 31), rng.randrange(-100000, 100000), rng.randrange(0, 100), 2 ** 31 - 1, -2 ** 31])
+            return dmx.Time(k / 10000.0)
+        if r < 0.8:       # halfway between ticks and other decimal fractions
+            return dmx.Time(rng.choice([0.00005, 0.00015, 0.00025, -0.00005, 1.23455, 2.5e-5, rng.randrange(-10 ** 7, 10 ** 7) / 100000.0]))
+        return dmx.Time(rng.uniform(-200000.0, 200000.0))
+    if typ == 'COLOR':
+        return dmx.Color(*[rng.choice([0, 255, rng.randrange(256)]) for _ in range(4)])
+    if typ == 'ANGLE':
+        return FrozenAngle(*[_f32_val(_rand_f32(rng, True)) for _ in range(3)])
+    if typ == 'VEC3':
+        return FrozenVec(*[_f32_val(_rand_f32(rng)) for _ in range(3)])
+    if typ == 'MATRIX':
+        m = Matrix()
+        for i in range(3):
+            for j in range(3):
+                m[i, j] = _f32_val(_rand_f32(rng))
+        return m.freeze()
+    cls = {'VEC2': dmx.Vec2, 'VEC4': dmx.Vec4, 'QUATERNION': dmx.Quaternion}[typ]
+    return cls(*[_f32_val(_rand_f32(rng)) for _ in range({'VEC2': 2, 'VEC4': 4, 'QUATERNION': 4}[typ])])
+
+
+SCALAR_TYPES = ['INTEGER', 'FLOAT', 'BOOL', 'TIME', 'COLOR', 'VEC2', 'VEC3', 'VEC4', 'ANGLE', 'QUATERNION', 'MATRIX']
+
+
+def corr_scalar(ck: Ck) -> None:
+    """Fmt/DmxScalar.v encode_sval/decode_sval (struct model + rn64 binary64 rounding) vs TYPE_CONVERT[t, BINARY] and
+    TYPE_CONVERT[BINARY, t] of the implementation, on generated values of every fixed-width type."""
+    from srctools import dmx
+    n = ck.budget(330, 4400)
+    cases = []
+    for i in range(n):
+        typ = SCALAR_TYPES[i % len(SCALAR_TYPES)]
+        vt = dmx.ValueType[typ]
+        v = gen_scalar_value(ck.rng, typ)
+        try:
+            b = dmx.TYPE_CONVERT[vt, dmx.ValueType.BINARY](v)
+            bl = f'(Some {_nl(b)})'
+        except (struct.error, OverflowError):
+            b, bl = None, 'None'
+            ck.count('corr_scalar_pack_errors')
+        if b is not None:
+            try:
+                back = dmx.TYPE_CONVERT[dmx.ValueType.BINARY, vt](b)
+                kl = f'(Some {sval_of_py(typ, back)})'
+            except Exception:
+                kl = 'None'
+        else:
+            kl = 'None'
+        cases.append((typ, repr(v), f'({COQ_TYPE[typ]}, {sval_of_py(typ, v)}, {bl}, {kl})'))
+        ck.count('corr_scalar_cases')
+        ck.hist('corr_scalar_type', typ)
+        ck.seen(('sc', typ, repr(v)))
+    bad = []
+    for lo in range(0, len(cases), 440):
+        vals = ck.coq_eval(IMPORTS_SC, [f'bad_idx chks 0 {coq_list(x[2] for x in cases[lo:lo + 440])}'], name='scalar', preamble=PRE_SC)
+        if vals is None:
+            ck.obligation('correspondence:scalar-codecs', False, 'model could not be evaluated')
+            ck.tie_broken.append('correspondence scalar codecs: model evaluation failed')
+            return
+        bad += [(lo + v // 10, v % 10) for v in parse_coq_N_list(vals[0])]
+    ck.obligation('correspondence:scalar-codecs', not bad,
+                  f'{len(cases)} values of the 11 fixed-width types: Fmt/DmxScalar.v encode_sval/decode_sval (Bin/Struct.v pack/unpack, '
+                  f'rn64 binary64 rounding for TIME) vs TYPE_CONVERT[t, BINARY] / TYPE_CONVERT[BINARY, t]: {len(bad)} disagreements')
+    ck.sample({'scalar_codec_case': cases[-1][:2]})
+    if bad:
+        i, code = bad[0]
+        ck.tie_broken.append('correspondence scalar codecs (Fmt/DmxScalar.v vs TYPE_CONVERT binary conversions)')
+        ck.extra['scalar_disagreement'] = {'type': cases[i][0], 'value': cases[i][1],
+                                           'kind': {1: 'model bytes differ', 2: 'model decoded value differs'}.get(code, code)}
+
+
+def angle_norm_identity(ck: Ck) -> None:
+    """The hypothesis of scalar_codec_roundtrip about FrozenAngle: a component that is a binary32 value in [0, 360) is
+    unchanged by the constructor.  Checked on the boundaries and on sampled patterns."""
+    from srctools.math import FrozenAngle
+    pats = [0, 1, 0x00800000, 0x3F800000, 0x43B3FFFF, 0x43B3FFFE, 0x43340000] + [ck.rng.randrange(0, 0x43B40000) for _ in range(ck.budget(2000, 20000))]
+    bad = []
+    for p_ in pats:
+        x = _f32_val(p_)
+        a = FrozenAngle(x, x, x)
+        if not (_f32_bits(a.pitch) == p_ and a.pitch == x and a.yaw == x and a.roll == x):
+            bad.append(p_)
+    ck.count('angle_norm_patterns', len(pats))
+    ck.obligation('angle-normalisation-identity-below-360', not bad,
+                  f'FrozenAngle(x, x, x) keeps x for {len(pats)} binary32 patterns in [0, 360) (boundaries + sample): {len(bad)} changed {bad[:3]}')
 
 
 # ------------------------------------------------------------------------------------------------ KV1 bridge
@@ -525,6 +694,16 @@ OBLIGATIONS = {
     'codec_agrees_string_array': 'site_enc_agrees gen_cfg SiteArrayStr',
     'fixed_width_types_have_sizes': 'sizes_ok gen_cfg',
     'stub_uuid_written_after_index': 'stub_ok gen_cfg',
+    'struct_formats_parse': 'formats_known gen_scalar',
+    'struct_formats_are_the_wire_layout': 'formats_match_wire_layout gen_scalar',
+    'sizes_are_calcsize_of_formats': 'sizes_match_formats gen_scalar gen_cfg',
+    'multi_field_types_are_splatted': 'splat_ok gen_scalar',
+    'vector_types_rebuilt_with_their_class': 'ctor_classes_ok gen_ctor_classes',
+    'time_rounds_to_nearest_tick': 'time_rounds_to_nearest gen_scalar',
+    'time_scale_written_is_scale_read': 'time_scales_agree gen_scalar',
+    'matrix_pack_has_16_slots': 'mat_slots_16 gen_scalar',
+    'matrix_cells_read_where_written': 'mat_cells_read_where_written gen_scalar',
+    'matrix_cells_in_range': 'mat_cells_in_range gen_scalar',
     'kv2_type_escaped': 'kv2_type_escaped', 'kv2_name_escaped': 'kv2_name_escaped',
     'kv2_attribute_name_escaped': 'kv2_attrname_escaped', 'kv2_array_value_escaped': 'kv2_array_value_escaped',
     'kv2_scalar_value_escaped': 'kv2_scalar_value_escaped',
@@ -546,6 +725,12 @@ EXPLAIN = {
     'instance:kv2_attribute_name_escaped': ['kv2', 'attr-name-needs-escape'],
     'instance:kv2_type_uses_file_codec': ['kv2', 'nonascii-element-type'],
     'instance:kv2_stub_keeps_uuid': ['kv2', 'stub'],
+    'instance:time_rounds_to_nearest_tick': ['binary', 'time'],
+    'instance:time_scale_written_is_scale_read': ['binary', 'time'],
+    'instance:matrix_cells_read_where_written': ['binary', 'matrix'],
+    'instance:matrix_pack_has_16_slots': ['binary', 'matrix'],
+    'correspondence:scalar-codecs': ['binary', ''],
+    'correspondence:binary': ['binary', ''],
 }
 
 
@@ -591,6 +776,8 @@ def run(ck: Ck) -> None:
         ck.theorems('Props/C14.v')
         ck.instance_obligations(IMPORTS, OBLIGATIONS)
         runtime_agreement(ck, side)
+        angle_norm_identity(ck)
+        corr_scalar(ck)
         corr_binary(ck)
         corr_kv1(ck)
     search_graphs(ck)
